@@ -70,6 +70,8 @@ pub enum FaultKind {
     EarlyEnd,
     /// Stream yields Err after `at` bytes.
     Err,
+    /// Stream panics (without message, via `resume_unwind`) after `at` bytes; finished afterwards.
+    Panic,
     /// The chunk that ends at offset `at` carries one extra junk byte; the rest follows.
     ExtraByte,
     /// After the complete range, one more 1-byte chunk.
@@ -136,7 +138,7 @@ impl EntSpec {
             "content_mode": self.content_mode,
             "fault": self.fault.as_ref().map(|f| json!({
                 "call": f.call, "at": u64_to_json(f.at), "shrunk_len": f.shrunk_len.map(u64_to_json),
-                "kind": match f.kind { FaultKind::EarlyEnd => "early_end", FaultKind::Err => "err",
+                "kind": match f.kind { FaultKind::EarlyEnd => "early_end", FaultKind::Err => "err", FaultKind::Panic => "panic",
                     FaultKind::ExtraByte => "extra_byte", FaultKind::ExtraChunk => "extra_chunk", FaultKind::Overrun => "overrun" }})),
         })
     }
@@ -163,6 +165,7 @@ impl EntSpec {
                 kind: match f["kind"].as_str().unwrap_or("") {
                     "early_end" => FaultKind::EarlyEnd,
                     "err" => FaultKind::Err,
+                    "panic" => FaultKind::Panic,
                     "extra_byte" => FaultKind::ExtraByte,
                     "overrun" => FaultKind::Overrun,
                     _ => FaultKind::ExtraChunk,
@@ -265,7 +268,7 @@ impl<D: HData> Stream for RangeStream<D> {
             Some(f) if matches!(f.kind, FaultKind::EarlyEnd) => f.at.min(self.len),
             _ => self.len,
         };
-        if self.done >= real_end && !matches!(self.fault.as_ref().map(|f| &f.kind), Some(FaultKind::Err) | Some(FaultKind::ExtraChunk)) {
+        if self.done >= real_end && !matches!(self.fault.as_ref().map(|f| &f.kind), Some(FaultKind::Err) | Some(FaultKind::Panic) | Some(FaultKind::ExtraChunk)) {
             (0, Some(0))
         } else {
             (1, Some((real_end - self.done).max(1) as usize + 1))
@@ -304,6 +307,10 @@ impl<D: HData> Stream for RangeStream<D> {
                     FaultKind::Err => {
                         this.finished = true;
                         return Poll::Ready(Some(Err("injected entity error".into())));
+                    }
+                    FaultKind::Panic => {
+                        this.finished = true;
+                        std::panic::resume_unwind(Box::new("injected entity panic".to_string()));
                     }
                     FaultKind::ExtraByte if f.at == 0 && !this.extra_sent => {
                         this.extra_sent = true;
